@@ -172,4 +172,36 @@ def softStmt (s : SoftEntry) : Stmt :=
   | none => .soft s.e
   | some g => .implies g (.cons (.soft s.e) .nil)
 
+/-! ### solve_order: ordered groups of a rand set -/
+
+/-- toposort levels: repeatedly take the nodes all of whose dependencies are done -/
+def levels (keys nodes : List Nat) (depsOf : Nat → List Nat) :
+    Nat → List Nat → List Nat → List (List Nat) → List (List Nat)
+  | 0, _, _, acc => acc
+  | fuel + 1, remaining, done, acc =>
+    if remaining.isEmpty then acc
+    else
+      let lvl := remaining.filter fun n =>
+        (if keys.contains n then depsOf n else []).all fun d => done.contains d || !nodes.contains d
+      if lvl.isEmpty then acc
+      else levels keys nodes depsOf fuel (remaining.filter fun n => !lvl.contains n) (done ++ lvl) (acc ++ [lvl])
+
+/-- repair 5c7e970: the fields of the set that are in no ordered group form a last group -/
+def withRest (rsFields : List Nat) (groups : List (List Nat)) : List (List Nat) :=
+  let rest := rsFields.filter fun f => !groups.flatten.contains f
+  if rest.isEmpty then groups else groups ++ [rest]
+
+/-- `RandInfoBuilder.build`: ordered groups of a rand set from the solve_order pairs
+    `(before, after)`: toposort levels restricted to the set's fields in field order; after repair
+    5c7e970 the fields no directive mentions form a last group.  `none` = no directive applies. -/
+def orderGroups (rsFields : List Nat) (pairs : List (Nat × Nat)) : Option (List (List Nat)) :=
+  let depsOf : Nat → List Nat := fun a => (pairs.filter (fun p => p.2 == a && p.1 != a)).map (·.1)
+  let keys := rsFields.filter fun f => pairs.any (fun p => p.2 == f)
+  if keys.isEmpty then none
+  else
+    let nodes := (keys ++ keys.flatMap depsOf).eraseDups
+    let lv := levels keys nodes depsOf (nodes.length + 1) nodes [] []
+    let groups := (lv.map fun fs => rsFields.filter fun f => fs.contains f).filter fun g => !g.isEmpty
+    some (withRest rsFields groups)
+
 end Pyvsc.RandSets
